@@ -293,12 +293,12 @@ def r6(ctx, sch):
 
 def check(ctx):
     ctx.explanation = (
-        "CFG dominance and effect closure on FeatureDB.update/delete/add_relation and the importer's finalisation: the backup copy's "
-        "guard dominates every statement with a database-write effect (direct SQL, commit, or a resolved callee whose transitive effects "
-        "write); the two DELETE statements are parsed and bound to one id; counters flow live into the importer and are written back "
-        "with INSERT OR REPLACE and reloaded on open; driver order by dominance/post-dominance; the early return of an empty update has "
-        "no write before it. R5 re-uses C02.R2's conjunctive-query comparison of the level-2 closure. Does not decide equality with a "
-        "reference model over histories.")
+        "FeatureDB.update/delete/add_relation and the importer's constructor are evaluated abstractly (no execution) into event traces: the "
+        "backup copy must be the first event that can change anything and be taken exactly when make_backup holds and the database is a file; "
+        "delete's statements and their bound values per element; the live counter object, dbfn, dialect and the built iterator reach the "
+        "importer; populate -> relations -> finalize; an empty source returns before any write; counters are written back with INSERT OR "
+        "REPLACE and reloaded on open (parsed SQL + provenance). R5 re-uses C02.R2's conjunctive-query comparison of the level-2 closure. "
+        "Does not decide equality with a reference model over histories.")
     eff = Effects(ctx)
     sch = schema(ctx)
     r1(ctx, eff)
